@@ -26,5 +26,5 @@ CHECK = {'level': 'exploration',
                'Finds mis-rounding on the inputs generated; proves nothing beyond them.',
  'level_note': 'Trusted: glibc strtod/printf exactness; my recogniser and decimal rounding routines; rapidcheck; sanitizers.',
  'engines': [{'src': 'pbt/C10_numbers.cpp',
-              'quick': {'workers': 8, 'cases': 12000, 'size': 100},
-              'thorough': {'workers': 16, 'cases': 600000, 'size': 100, 'timeout': 7200}}]}
+              'quick': {'workers': 8, 'cases': 24000, 'size': 100},
+              'thorough': {'workers': 16, 'cases': 1000000, 'size': 100, 'timeout': 7200}}]}
